@@ -69,31 +69,42 @@ def order(ctx):
     for lf in lv:
         if lf.kind != "return":
             continue
-        seq = [e[3] for e in lf.events if e[0] == "call" and e[3] in ORDER]
-        ok_prefix = seq == ORDER[: len(seq)]
+        def uri_part(t):
+            a = look(t)
+            return a[0] == "field" and a[3] in ("1", "uri") and payload_of(a[1]) is not None and is_call(payload_of(a[1]), ORDER[0])
+
+        # the URI element may be decoded here (from_utf8 of part 1) before Uri::try_from receives it: both belong to step 2
+        seq = [e[3] for e in lf.events if e[0] == "call" and (e[3] in ORDER or (last_seg(e[3]) == "from_utf8" and uri_part(e[4][2][0])))]
+        cls = [ORDER.index(x) if x in ORDER else 2 for x in seq]
+        dedup = [c_ for i_, c_ in enumerate(cls) if i_ == 0 or cls[i_ - 1] != c_]
+        ok_prefix = dedup == list(range(len(dedup))) and cls.count(0) <= 1 and cls.count(1) <= 1 and cls.count(3) <= 1 and seq.count(ORDER[2]) <= 1
+        decoded_here = [x for x in seq if x not in ORDER]
         rk = ret_kind(lf)
         if rk[0] == "Ok":
             full += 1
             r = look(rk[1])
             names = [f["name"] for f in ctx.facts.struct_fields("request::RequestLine")]
-            good = ok_prefix and len(seq) == 4 and r[0] == "agg" and r[1] == "request::RequestLine"
+            good = ok_prefix and len(dedup) == 4 and len(decoded_here) <= 1 and r[0] == "agg" and r[1] == "request::RequestLine"
             if good:
                 for field, callee, idx in (("method", ORDER[1], "0"), ("uri", ORDER[2], "1"), ("http_version", ORDER[3], "2")):
                     v = r[3][names.index(field)]
                     good = good and payload_of(v) is not None and is_call(payload_of(v), callee)
                     if good:
                         a = look(payload_of(v)[2][0])
+                        if callee == ORDER[2] and decoded_here and payload_of(a) is not None and is_call(strip_map_err(payload_of(a)), "from_utf8"):
+                            a = look(strip_map_err(payload_of(a))[2][0])      # the text decoded from part 1
                         good = a[0] == "field" and a[3] in (idx, {"0": "method", "1": "uri", "2": "version"}[idx]) and payload_of(a[1]) is not None and is_call(payload_of(a[1]), ORDER[0]) and look(payload_of(a[1])[2][0]) == ("arg", 1)
             ctx.ob("R02.1", "order|accept", good, "accepting path: split, Method(part 0), Uri(part 1), Version(part 2), each result stored in its own field", fn.loc(lf.bb))
         elif rk[0] == "prop":
             # the error returned is that of the last call made
             res = rk[1][2][0]
             src = res[1] if res[0] == "residual" else None
-            good = ok_prefix and src is not None and is_call(src, seq[-1]) if seq else False
+            good = ok_prefix and src is not None and is_call(strip_map_err(src), seq[-1]) if seq else False
             ctx.ob("R02.1", "order|reject-after-%d" % len(seq), good, "a failure of step %d (%s) is returned immediately, before any later element is looked at" % (len(seq), seq[-1].split("::")[-2] if seq else "?"), fn.loc(lf.bb))
         else:
             ctx.fail("R02.1", "order|other-return", "RequestLine::try_from has a return that is neither Ok nor a propagated step failure", fn.loc(lf.bb))
-    ctx.ob("R02.1", "order|paths", full == 1 and len(lv) == 5, "%d paths, %d accepting (expected 5 and 1)" % (len(lv), full), fn.loc(0))
+    extra = 1 if any(last_seg(t["callee"].get("path") or "") == "from_utf8" for _bb, t in fn.calls()) else 0
+    ctx.ob("R02.1", "order|paths", full == 1 and len(lv) == 5 + extra, "%d paths, %d accepting (expected %d and 1)" % (len(lv), full, 5 + extra), fn.loc(0))
 
 
 def _pieces(ctx):
@@ -375,6 +386,9 @@ def uri(ctx):
         x = strip_map_err(x)
         return is_call(x, "from_utf8") and look(x[2][0]) == ("arg", 1)
 
+    # Uri::try_from may receive the URI already decoded (no from_utf8 inside): then every caller must hand it the Ok
+    # payload of from_utf8(its bytes), with the decoding failure returned as InvalidUri
+    text_form = not any(last_seg(t["callee"].get("path") or "") == "from_utf8" for _bb, t in fn.calls())
     for lf in lv:
         rk = ret_kind(lf)
         if rk is None:
@@ -419,10 +433,30 @@ def uri(ctx):
                     inner = look(inner[2][0])
                 src = ok_payload_source(inner)
                 ok = src is not None and is_from_utf8_of_input(src)
+                if text_form:
+                    ok = inner == ("arg", 1)
             tr = [x for x in transforms(v) if x not in ("new", "map_err", "from_utf8", "from", "to_owned", "to_string", "into")]
             ctx.ob("R02.4", "uri|verbatim", ok and not tr, "the stored URI is from_utf8(the bytes) with no transformation (extra calls: %s)" % tr, fn.loc(lf.bb))
         else:
             ctx.fail("R02.4", "uri|other-return", "unexpected return in Uri::try_from", fn.loc(lf.bb))
+    if text_form:
+        callers = [f for f in ctx.facts.fns.values() if list(f.calls_to("request::Uri::try_from"))]
+        for f in callers:
+            f2, lv2 = leaves(ctx, f.name)
+            for lf in lv2:
+                for e in lf.events:
+                    if e[0] == "call" and e[3] == "request::Uri::try_from":
+                        a = look(e[4][2][0])
+                        src = payload_of(a)
+                        ctx.ob("R02.4", "uri|decoded-by-caller|" + f.name, src is not None and is_call(strip_map_err(src), "from_utf8"), "Uri::try_from takes text: %s hands it the Ok payload of from_utf8(the URI bytes)" % f.name, f2.loc(e[1]))
+                rk = ret_kind(lf)
+                if rk is not None and rk[0] == "prop":
+                    src = rk[1][2][0][1]
+                    if is_call(strip_map_err(src), "from_utf8"):
+                        seen.add("non-utf8")
+                        shapes = S.eval(lf.ret(), f2)
+                        names = {s_[1][0] for s_ in shapes if s_ != TOP and s_[0] == "Err" and s_[1] != TOP}
+                        ctx.ob("R02.4", "uri|non-utf8", names == {"InvalidUri"}, "a URI that is not UTF-8 is InvalidUri (error kinds %s)" % sorted(names), f2.loc(lf.bb))
     ctx.ob("R02.4", "uri|covered", seen == {"empty", "non-utf8", "ok"}, "paths: %s" % sorted(seen), fn.loc(0))
     fnew, ln = leaves(ctx, "request::Uri::new")
     for lf in ln:
